@@ -33,7 +33,7 @@ RULE += ' ' + "Sequences on an Index obtained from a FanoutCache / DjangoCache a
 RULE += ' ' + "The parent's calls include looking the same name up again; in 40 % of the runs with a parent the name holds ':' '*' '?' '|' '/' and sibling objects under colliding spellings hold marker items."
 ASSUMPTIONS = ['Index.setdefault is checked as the documented get/add loop (insert attempts + final lookup), not as one indivisible step',
                'key alphabet avoids pairs that Python treats as equal but diskcache documents as distinct (True/1, 2**63/2.0**63)']
-PROBES = ('fifo_churn', 'own_temporary_directory', 'lifecycle', 'from_fanout', 'from_django', 'parent_calls', 'named_with_special_characters', 'lock_wait', 'file_backed_replace')
+PROBES = ('fifo_churn', 'own_temporary_directory', 'lifecycle', 'from_fanout', 'from_django', 'parent_calls', 'named_with_special_characters', 'pass_overlaps_replacement', 'lock_wait', 'file_backed_replace')
 TECHNIQUE = 'deterministic simulation + differential testing against collections.OrderedDict; seeded schedules + linearizability (no miss tolerance) for concurrent use'
 LEVEL_TEXT = ('seeded exploration of mapping-call sequences with lifecycle events against OrderedDict, and of 2-3 client '
               'interleavings decided by a linearizability search in which a lookup of a continuously present key may never miss.')
@@ -116,6 +116,8 @@ def gen_case(seed, tier):
             op = {'op': 'clear'}
         elif r < 0.92:
             op = {'op': 'peekitem', 'last': rng.random() < 0.5}
+        elif r < 0.925:
+            op = {'op': 'iter_replace', 'what': rng.choice(('items', 'values'))}
         elif r < 0.935:
             # first-in-first-out churn: many insertions, each followed by the removal of the oldest item - the index stays small
             # while the positions of its rows move far beyond one page of whatever the iteration pages by
@@ -344,6 +346,27 @@ def run_seq(case):
                 parent_call(parent, op['call'], subname)
                 probes['parent_calls'] = probes.get('parent_calls', 0) + 1
                 got = want = None
+            elif name == 'iter_replace':
+                # a pass over items() / values() is under way when another handle replaces the value of a key the pass has
+                # not reached yet (by a value kept in a file): the key is there all along, so the pass yields it - with the
+                # value it has when it is reached
+                got = want = None
+                if len(ref) >= 2:
+                    view = ix.items() if op['what'] == 'items' else ix.values()
+                    it = iter(view)
+                    seen = [next(it)]
+                    last_key = list(ref)[-1]
+                    newv = 'R' * 40000 + str(idx)
+                    other = dc.Index(directory)
+                    other[last_key.key] = newv
+                    other.cache.close()
+                    ref[last_key] = newv
+                    seen.extend(it)
+                    exp_pass = list(ref.items()) if op['what'] == 'items' else list(ref.values())
+                    if op['what'] == 'items':
+                        exp_pass = [(k.key, v) for k, v in exp_pass]
+                    got, want = ('ok', fp(seen)), ('ok', fp(exp_pass))
+                    probes['pass_overlaps_replacement'] = probes.get('pass_overlaps_replacement', 0) + 1
             elif name == 'pickle':
                 ix = pickle.loads(pickle.dumps(ix))
                 probes['lifecycle'] = probes.get('lifecycle', 0) + 1
